@@ -14,6 +14,36 @@ TRUST = ("Trusted base: CPython ast parser, the pgverif resolver/engines (their 
          "rank-uniform documented arguments).")
 
 CLAIMS = {
+    "C01": dict(
+        text="Field-location flow (abstract interpretation over buffer names) through LayoutHandler.transpose and all "
+             "callees for buf in {None, given} x route lengths 1..7 (result shown 2-periodic in the length) x all branch "
+             "outcomes: the field ends in `dest`, no stale read or clobber, `source` is never written when a spare "
+             "buffer is given, layout book-keeping advances with the data, copy extents match the data's layout; "
+             "symbolic shape-list agreement of buffer sizing / packer / unpacker; communicator and axis agreement; "
+             "axis-role discipline after the 0<->axis[0] reordering; permutation-word typing of every np.transpose. "
+             "These are necessary structural conditions of 'the global field is unchanged'; element-level index "
+             "arithmetic beyond the permutation typing, and dtype coverage, are not decided.",
+        technique="abstract interpretation over buffer/layout names + symbolic shape lists + free-group permutation typing (AST)",
+        design="5/C01, 4.3"),
+    "C03": dict(
+        text="Same field-location flow for LayoutSwapper.transpose (same-group, scatter, gather, multi-step; with and "
+             "without buffer), current-manager typestate at every exit, index-ownership typing of all 6 getAxes call "
+             "sites (each returned axis only indexes tables/communicators of the layout it was computed for; the "
+             "scattered argument is the more distributed layout under the enclosing guard), Allgather geometry "
+             "(uniform padded counts, unpack with the sender's true block shape, placement by the source partition, "
+             "Allgather not Gather), scatter slice, buffer sizing, permutation typing. The communicator-matching "
+             "heuristic of __init__ and element-level placement are not decided.",
+        technique="abstract interpretation over buffer/layout/manager names + index-ownership typing + shape-list agreement (AST)",
+        design="5/C03, 4.3"),
+    "C04": dict(
+        text="Exhaustive typestate enumeration of a model extracted from the AST of Grid's methods on every run: all "
+             "states reachable under all sequences of setLayout/overwrite/save/free/restore from both constructors are "
+             "compared with the single-array specification (index permutation, visible field and layout, view "
+             "coherence, save protection, refusals before mutation), with LayoutManager.transpose replaced by its "
+             "contract, which is discharged in the same run by the C01/C03 flow analysis; plus buffer allocation "
+             "agreement and the driver's save/restore protocol. Data values are not modelled.",
+        technique="typestate extraction from the AST + exhaustive enumeration of the finite abstract state space",
+        design="5/C04, 4.3"),
     "C06": dict(
         text="Static SPMD collective matching: every collective call site (35 today) and every call chain to it is "
              "shown to be control dependent only on rank-uniform conditions, or to lie in a region whose alternatives "
